@@ -462,8 +462,8 @@ def run_case(case: dict) -> dict:
     try:
         try:
             sc = Scenario(case, root)
-        except (RuntimeError, ValueError) as err:
-            return dict(verdict="discard", detail=f"scenario not buildable: {err}")
+        except Exception as err:  # noqa: BLE001 - e.g. the out-of-scope build_trees defect on a patch without objects in any bin
+            return dict(verdict="discard", detail=f"scenario not buildable: {type(err).__name__}")
         log = os.path.join(root, "oplog.txt")
         work = os.path.join(root, "work")
 
